@@ -1,5 +1,6 @@
 HARNESS = "c01"
 STALE_RERUN = True   # operands also re-run as stale external polynomials (see check)
+STALE_LIMIT = 20000  # quick: every case is re-run with stale external operands
 LEVEL = "proof"
 """C01 case generator: operation sequences applied in place on a pool of polynomials.
 Every random choice comes from the one `rng` passed in.  The small dictionary arithmetic below only STEERS
@@ -291,6 +292,16 @@ def mv_case(rng, tier):
                 continue
             ops.append("pow %d %d %d" % (d, a, e))
         elif op == "shl":
+            # prefer non-constant operands, and among them those in >= 2 variables (their main variable depends on
+            # the variable order: the stale-external rerun builds them under the reversed order)
+            cand = [i for i in range(n) if topvar(order, pool[i]) is not None]
+            multi = [i for i in cand if len({x for kk in pool[i] for x, _ in kk}) >= 2]
+            if multi and rng.random() < 0.6:
+                a = rng.choice(multi)
+            elif cand and rng.random() < 0.8:
+                a = rng.choice(cand)
+            if rng.random() < 0.35:
+                d = a
             x = topvar(order, pool[a])
             nn = rng.choice([0, 1, 1, 2, 3, 5])
             if x is None:
